@@ -26,6 +26,14 @@ def make(pid, flags, own_prefixes, nontrivial, extra_exc=()):
             classes.append("has:multi-engine")
         if case["spec"]["cap"] is not None:
             classes.append("has:cap")
+        if case["spec"].get("lm1") is not None:
+            classes.append("has:lambda_minus_one")
+        if case["spec"].get("origin"):
+            classes.append("has:translated-system")
+            if case["spec"]["origin"] in (case["spec"]["cap"], case["spec"].get("lm1"), 0.5):
+                classes.append("has:cap-or-lambda-on-0.0")
+        if any("workers" in sg for sg in case["segments"]):
+            classes.append("has:restart-on-another-worker-count")
         nt = nontrivial(st, summ)
         rec.case(key=case, nontrivial=nt, classes=classes,
                  sample={"spec": case["spec"], "segments": [{k: v for k, v in s.items() if k != "schedule"} | {"schedule": s["schedule"][:8]} for s in case["segments"]],
